@@ -8,12 +8,14 @@ from . import c09
 
 def run(chk):
     jobs = c09.make_jobs('C03', chk.tier, chk.only)
+    if not chk.only or 'zforms' in chk.only:
+        jobs.append(dict(prop='C03', zforms=True, docs=['zforms']))
     from ..spec import zinc_ref
     chk.bounds = dict(documents=sorted(mutworker.GRID_DOCS) + ['scalar:' + k for k in sorted(mutworker.SCALAR_DOCS)],
                       spellings='blanks around commas, empty cells, _ digit separators, exponents, INF/-INF/NaN, backslash and \\\\uXXXX escapes, CRLF, trailing commas/blanks in lists and dicts, t/T z/Z, with/without zone name, with/without final newline (insert/replace at the end), one or two grids, versions 2.0/3.0',
                       mutation='one symbolic code point replacing / inserted at every third (quick) or every (thorough) position; only paths on which the reference reader accepts the text are claimed',
                       fully_symbolic='every scalar text of 1..2 (quick) / 1..3 (thorough) code points, versions 2.0 and 3.0; thorough: two adjacent symbolic characters at every position of the scalar corpus',
-                      inputs='str input, single=False (single=True/bytes/charset forwarding are exercised concretely by the corpus validation)')
+                      inputs='symbolic runs: str input, single=False; concrete input forms: every corpus document (plus two with text outside ASCII) as bytes in 14 charsets, with and without byte-order mark, single=True and False, default arguments, bytes scalars, empty input')
     chk.assumptions = ['the reference reader is my recollection of the ZINC grammar; uncertain points are excluded from the claim (the reference rejects them as "uncertain"): ' + '; '.join(zinc_ref.UNCERTAIN),
                        'zone names are compared as written (zone database semantics: C17)',
                        'one mutated position per grid document (adjacent pairs on scalars in the thorough tier)', 'quick tier excludes non-ASCII decimal digits from the symbolic character']
